@@ -49,10 +49,14 @@ struct Impl {
     /// Serialization plugin used for encoding/decoding keys and values.
     plugin: Plugin,
 
-    /// Cache mapping stable type IDs to keyspace names.
+    /// Cache mapping stable type IDs and column kinds to keyspaces.
     ///
-    /// This is used to avoid repeated lookups for the same keyspace.
-    keyspaces: DashMap<StableTypeID, Keyspace>,
+    /// This is used to avoid repeated lookups for the same keyspace. The
+    /// column kind is part of the key because the keyspace name depends on
+    /// it: a type used both as a wide column and as a key-of-set column owns
+    /// two keyspaces and must never be handed the one that belongs to the
+    /// other kind.
+    keyspaces: DashMap<(StableTypeID, ColumnKind), Keyspace>,
 }
 
 impl std::fmt::Debug for Impl {
@@ -156,13 +160,13 @@ impl Impl {
         loop {
             let id = C::STABLE_TYPE_ID;
 
-            if let Some(keyspace) = self.keyspaces.get(&id) {
+            if let Some(keyspace) = self.keyspaces.get(&(id, kind)) {
                 return keyspace.clone();
             }
 
             let keyspace_name = Self::keyspace_name_from_id(id, kind);
 
-            if let Entry::Vacant(entry) = self.keyspaces.entry(id) {
+            if let Entry::Vacant(entry) = self.keyspaces.entry((id, kind)) {
                 let keyspace = self
                     .db
                     .keyspace(&keyspace_name, || {
